@@ -121,6 +121,46 @@ def marker_len_case():
         return (n, v, dict(judged=1))
     return case, 10
 
+def cli_leg(rep, tier):
+    """the command-line tool: `multimarkdown -t mmd a.txt` prints the transcluded text; main.c resolves the folder and the absolute path itself"""
+    import subprocess, time
+    from concurrent.futures import ThreadPoolExecutor
+    from vp import build
+    t0 = time.time(); cli = build.build_cli()
+    graphs = graph_cases("quick")[::(23 if tier == "quick" else 5)]
+    base = tempfile.mkdtemp(prefix="vp-c13cli-", dir="/dev/shm" if os.path.isdir("/dev/shm") else None)
+    def one(gi):
+        g = graphs[gi]; d = os.path.join(base, "g%d" % gi); os.makedirs(os.path.join(d, "sub")); os.makedirs(os.path.join(d, "base"))
+        files = {}
+        for k, v in FIXED.items(): open(os.path.join(d, k), "wb").write(v); files[os.path.join(d, k)] = v
+        for i, marks in enumerate(g):
+            body = file_body(i, marks, d); open(os.path.join(d, NAMES[i]), "wb").write(body); files[os.path.join(d, NAMES[i])] = body
+        top = os.path.join(d, "a.txt"); out = []
+        for fname, fmt in (("mmd", 11), ("html", 0)):
+            r = Ref(files, fmt); exp = r.expand(files[top], d + "/", top, [])
+            try:
+                got = subprocess.run([cli, "-t", fname, top], capture_output=True, timeout=30)
+            except subprocess.TimeoutExpired:
+                out.append(("transclude:cli-hang", "multimarkdown -t %s did not finish within 30 s" % fname, dict(files={NAMES[i]: file_body(i, m, "<dir>").decode() for i, m in enumerate(g)}))); continue
+            if got.returncode < 0:
+                out.append(("transclude:cli-crash", "multimarkdown -t %s died with signal %d" % (fname, -got.returncode), dict(files={NAMES[i]: file_body(i, m, "<dir>").decode() for i, m in enumerate(g)}))); continue
+            if r.cyclic: continue
+            want = exp if fmt == 11 else mmd.convert(exp, mmd.EXT_DEFAULT, 0)
+            have = got.stdout
+            if fmt == 11: have = have[:-1] if have.endswith(b"\n") and not want.endswith(b"\n\n") and have == want + b"\n" else have
+            if have != want and have != want + b"\n":
+                out.append(("transclude:cli-differs:" + fname, "multimarkdown -t %s a.txt gives %r, reference %r" % (fname, have.replace(d.encode(), b"<dir>")[:300], want.replace(d.encode(), b"<dir>")[:300]),
+                            dict(files={NAMES[i]: file_body(i, m, "<dir>").decode() for i, m in enumerate(g)})))
+        shutil.rmtree(d, ignore_errors=True)
+        return out
+    n = 0
+    with ThreadPoolExecutor(16) as ex:
+        for vs in ex.map(one, range(len(graphs))):
+            n += 2
+            for sig, det, case in vs: rep.add_violation(sig, det, case, replay=dict(kind="cli"))
+    shutil.rmtree(base, ignore_errors=True)
+    rep.add_level("cli", n, n, True, time.time() - t0, max(len(graphs), 2), "real CLI -t mmd / -t html on a sub-grid of include graphs (main.c resolves folder and absolute path)")
+
 def run(tier):
     rep = core.Report("C13", tier, "exploration")
     rep.rule = ("every include graph over n files whose bodies hold up to m markers drawn from {each file (self-loops and cycles included), a missing file, {{TOC}}, a wildcard name.*, a sub-directory path, "
@@ -133,13 +173,16 @@ def run(tier):
     case, n2 = marker_len_case()
     res = pmap.pmap(n2, case, workers=2)
     pmap.fold(rep, "marker-length", n2, res, "markers of 10..5000 bytes around the 1000-byte cap")
+    cli_leg(rep, tier)
     rep.add_sample(dict(files={"a.txt": "F0-start\n\n{{b.txt}}\n\n{{w.*}}\n\nF0-end\n", "b.txt": "F1-start\n\n{{a.txt}}\n\nF1-end\n"}, format="html", note="2-cycle: must terminate"))
     rep.add_sample(dict(files={"a.txt": "F0-start\n\n{{tb.txt}}\n\nF0-end\n"}, fixed={"tb.txt": FIXED["tb.txt"].decode(), "base/x.txt": FIXED["base/x.txt"].decode()}))
     return rep.finish()
 
 def replay(rec):
     print(rec["cases"][0]); return 1
-def prepare(): mmd.so_path()
+def prepare():
+    from vp import build
+    mmd.so_path(); build.build_cli()
 
 META = dict(level="exploration", engine="E5",
     technique="exhaustive enumeration of include graphs (incl. self-loops and cycles) materialised on disk, compared with a recursive-substitution reference; hang watchdog for termination",
